@@ -4,6 +4,7 @@ CONSTANTS
   Modes = {"insert"}
   OwnsAllSet = {FALSE}
   Rich = 0
+  WithMaps = FALSE
   StartExtras = {{"cali-a", "cali-old", "felix-old", "other"}}
   SimLen = 4
   Composite = TRUE
